@@ -401,14 +401,25 @@ func (c *SpecCtx) eval(e Expr) Val {
 			c.fail("quantifier body not boolean: %s", e.Body)
 		}
 		b := body.T
+		var qnames []string
+		for _, qv := range e.Vars {
+			qnames = append(qnames, nb[qv.Name].T)
+		}
+		pat := idxPatterns(b, qnames)
 		if e.Forall {
 			if len(ranges) > 0 {
 				b = implies(and(ranges...), b)
+			}
+			if pat != "" {
+				b = fmt.Sprintf("(! %s %s)", b, pat)
 			}
 			return Val{T: fmt.Sprintf("(forall (%s) %s)", strings.Join(decls, " "), b), Typ: types.Typ[types.Bool]}
 		}
 		if len(ranges) > 0 {
 			b = and(append(ranges, b)...)
+		}
+		if pat != "" {
+			b = fmt.Sprintf("(! %s %s)", b, pat)
 		}
 		return Val{T: fmt.Sprintf("(exists (%s) %s)", strings.Join(decls, " "), b), Typ: types.Typ[types.Bool]}
 	case *ECall:
@@ -418,6 +429,90 @@ func (c *SpecCtx) eval(e Expr) Val {
 	}
 	c.fail("unsupported expression %s", e)
 	return Val{}
+}
+
+// idxPatterns builds explicit E-matching patterns from the element accesses (idx S q)
+// whose index is exactly a bound variable: one multi-pattern covering every bound
+// variable, or "" when some variable has no such access (the solver then infers patterns).
+func idxPatterns(body string, qvars []string) string {
+	found := map[string][]string{}
+	for off := 0; ; {
+		i := strings.Index(body[off:], "(idx ")
+		if i < 0 {
+			break
+		}
+		i += off
+		off = i + 1
+		// parse first argument
+		j := i + len("(idx ")
+		start := j
+		depth := 0
+		for j < len(body) {
+			c := body[j]
+			if c == '|' {
+				k := strings.IndexByte(body[j+1:], '|')
+				if k < 0 {
+					break
+				}
+				j += k + 2
+				if depth == 0 {
+					break
+				}
+				continue
+			}
+			if c == '(' {
+				depth++
+			} else if c == ')' {
+				depth--
+				if depth == 0 {
+					j++
+					break
+				}
+			} else if c == ' ' && depth == 0 {
+				break
+			}
+			j++
+		}
+		if j >= len(body) || body[j] != ' ' {
+			continue
+		}
+		arg1 := body[start:j]
+		rest := body[j+1:]
+		for _, q := range qvars {
+			if strings.HasPrefix(rest, q+")") {
+				// the slice term must not mention bound variables of this quantifier other than via q
+				t := "(idx " + arg1 + " " + q + ")"
+				dup := false
+				for _, x := range found[q] {
+					if x == t {
+						dup = true
+					}
+				}
+				if !dup {
+					found[q] = append(found[q], t)
+				}
+			}
+		}
+	}
+	for _, q := range qvars {
+		if len(found[q]) == 0 {
+			return ""
+		}
+	}
+	// one multi-pattern per combination would be exponential; use the first access of each variable,
+	// plus alternatives when there is a single bound variable
+	if len(qvars) == 1 {
+		var ps []string
+		for _, t := range found[qvars[0]] {
+			ps = append(ps, ":pattern ("+t+")")
+		}
+		return strings.Join(ps, " ")
+	}
+	var ts []string
+	for _, q := range qvars {
+		ts = append(ts, found[q][0])
+	}
+	return ":pattern (" + strings.Join(ts, " ") + ")"
 }
 
 // evalAddr: pointer to the struct denoted by an addressable expression (s[i], p.f, *p),
